@@ -342,6 +342,7 @@ class NetRunner:
         # descriptions without address table only where the property does not speak about decoding or routing by it
         gen_desc.ALLOW_NO_TABLE = pid in ("C05", "C06", "C11", "C12", "C13")
         gen_desc.SHORT_DEGREE = pid in ("C05", "C06")
+        gen_desc.EXPRESS_LINKS = pid != "C09"
         stats = collections.Counter()
         dist = collections.Counter()
         seen = set()
